@@ -340,7 +340,7 @@ func c11exec(c *h.Ctx, cs *h.Case) {
 	doOp := func(op string) bool {
 		t0 := time.Now()
 		defer func() {
-			if tk := strings.Fields(op); len(tk) > 1 && tk[1] != "wait" && time.Since(t0) > c11grace/3 {
+			if tk := strings.Fields(op); len(tk) > 1 && tk[1] != "wait" && tk[1] != "churn" && time.Since(t0) > c11grace/3 {
 				slow = true
 			}
 		}()
@@ -606,6 +606,41 @@ func c11exec(c *h.Ctx, cs *h.Case) {
 		case len(tk) == 2 && tk[1] == "wait":
 			time.Sleep(c11wait)
 			cs.Impl = append(cs.Impl, obs())
+		case len(tk) == 3 && tk[1] == "churn":
+			// a busy server: n further ordinary runs on the tree are started locally and finish at once, one after
+			// the other; they are not listed in the observation (the model numbers them from 2000). Every run
+			// registers the tree again and the last Done() schedules its removal when nothing else is listed, so the
+			// outcome does not depend on how long the loop takes (no `slow` verdict for this op).
+			n, err := strconv.Atoi(tk[2])
+			if err != nil || n < 0 || n > 4000 {
+				cs.Impl = append(cs.Impl, "bad-op")
+				return true
+			}
+			for j := 0; j < n; j++ {
+				pi, err := cl.L.CreateProtocol(fix.ProtoName, tree)
+				if err != nil {
+					cs.Impl = append(cs.Impl, "err")
+					cs.Fail("local-start-failed", err.Error())
+					return true
+				}
+				rec := fix.RecOf(pi.Token())
+				if rec == nil {
+					cs.Impl = append(cs.Impl, "err")
+					cs.Fail("local-start-failed", "no record of the instance CreateProtocol returned")
+					return true
+				}
+				rec.Tni.Done()
+				if st := ov.VerifInstanceState(pi.Token()); st != "done" {
+					cs.Impl = append(cs.Impl, "err")
+					cs.Fail("churn-instance-not-finished", fmt.Sprintf("run %d of churn is %s after its Done()", j, st))
+					return true
+				}
+			}
+			c.Count("op=churn")
+			if !awaitFlushed() {
+				return false
+			}
+			cs.Impl = append(cs.Impl, obs())
 		case len(tk) == 3 && tk[1] == "localstart":
 			k, _ := strconv.Atoi(tk[2])
 			if _, ok := tokens[k]; ok || k >= 1000 || (k >= 200 && k < 260) {
@@ -759,6 +794,21 @@ func c11gen(c *h.Ctx, yield func(*h.Case)) {
 	// corpus: late message during the grace period (kept the tree for ever before the repair);
 	// a run re-using the tree during the grace period; two instances sharing the tree
 	yield(&h.Case{Class: "corpus-late", Ops: []string{"c11 localstart 1", "c11 done 1", "c11 arrive 1 5", "c11 thread 1 5"}})
+	// a busy server: an instance finishes, many other runs start and finish on the server (op churn), then a late message
+	// with the finished token arrives — it must still be dropped, however many instances finished in between (seeded
+	// C11r7-B bounded the list of done marks at 1024)
+	yield(&h.Case{Class: "busy-server", Ops: []string{"c11 localstart 1", "c11 done 1", "c11 churn 1100", "c11 arrive 1 5", "c11 thread 1 5", "c11 wait"}})
+	yield(&h.Case{Class: "busy-server", Ops: []string{"c11 localstart 2", "c11 arrive 3 5", "c11 thread 3 5", "c11 done 3", "c11 churn 40", "c11 arrive 3 6", "c11 thread 3 6", "c11 churn 600", "c11 peerreq", "c11 churn 600",
+		"c11 arrive 3 7", "c11 thread 3 7", "c11 arrive 2 8", "c11 thread 2 8", "c11 done 2", "c11 arrive 2 9", "c11 thread 2 9", "c11 wait"}})
+	for i := 0; i < c.Pick(1, 6); i++ {
+		n := []int{7, 130, 1030, 1500, 2100, 3000}[r.Intn(c.Pick(3, 6))]
+		ops := []string{"c11 localstart 1", "c11 arrive 2 5", "c11 thread 2 5"}
+		first := 1 + r.Intn(2)
+		ops = append(ops, fmt.Sprintf("c11 done %d", first), fmt.Sprintf("c11 churn %d", n), fmt.Sprintf("c11 arrive %d 6", first), fmt.Sprintf("c11 thread %d 6", first),
+			fmt.Sprintf("c11 done %d", 3-first), fmt.Sprintf("c11 churn %d", 1+r.Intn(5)), fmt.Sprintf("c11 arrive %d 7", first), fmt.Sprintf("c11 thread %d 7", first),
+			fmt.Sprintf("c11 arrive %d 8", 3-first), fmt.Sprintf("c11 thread %d 8", 3-first), "c11 wait")
+		yield(&h.Case{Class: "busy-server", Ops: ops})
+	}
 	yield(&h.Case{Class: "corpus-peer-request-in-grace", Ops: []string{"c11 localstart 1", "c11 peerreq", "c11 done 1", "c11 peerreq", "c11 wait", "c11 peerreq"}})
 	yield(&h.Case{Class: "corpus-reuse", Ops: []string{"c11 localstart 1", "c11 arrive 2 5", "c11 thread 2 5", "c11 done 1", "c11 arrive 2 6", "c11 thread 2 6", "c11 done 2", "c11 arrive 3 7", "c11 thread 3 7", "c11 wait", "c11 done 3"}})
 	yield(&h.Case{Class: "corpus-race", Ops: []string{"c11 localstart 1", "c11 arrive 2 5", "c11 done 1", "c11 thread 2 5", "c11 wait", "c11 arrive 2 6", "c11 thread 2 6"}})
